@@ -7,6 +7,10 @@ import AfkakProofs.Client.B_MonC20
 import AfkakProofs.Client.B_CloseAll
 import AfkakProofs.Client.B5_ComposeAgree
 import AfkakProofs.Client.B5_ComposeProj
+import AfkakProofs.Client.B5_ReqClosed
+import AfkakProofs.Client.B5_Cleared
+import AfkakProofs.Client.A_Ids
+import AfkakProofs.Client.B5_Ids
 import AfkakProps.Open.C20
 /-!
 # C20 — closing the client fails everything pending and releases every connection
@@ -67,7 +71,12 @@ theorem C20_metadata_cleared (cfg : Cfg) (st : St) (o : Nat) :
 /-- A coordinator request (`_send_request_to_coordinator`: join, sync, heartbeat, leave) started after close
     fails inside the call with `ClientError` (the cached coordinator is looked up, `_get_brokerclient` refuses),
     at the level of a whole step: the operation's result is among the step's observations.  (Fresh request
-    ids `x.r < length` hold in every reachable state.) -/
+    ids `x.r < length` hold in every reachable state.)  NOTE (audit round 2): a cached coordinator and `closing` hold
+    together only INSIDE the close step (before `reset_all_metadata()` runs) - between steps a closed client has no
+    cached coordinator (`C20_metadata_stays_cleared`), and `_send_request_to_coordinator` then goes through the
+    coordinator lookup and fails with CoordinatorNotAvailable (the harness diffs this against the code on every scenario
+    that issues one after close); the step-level "fails at once" statement for reachable closed states is proved for
+    metadata loads (`C20_load_after_close_fails_at_once`) and monitored for the other operations. -/
 theorem C20_srtc_after_close_fails (cfg : Cfg) (st : St) (env : Env) (o : Nat) (g : String) (mt : Option Rat) (b : Broker)
     (hc : st.closing = true) (hg : get? g st.cache.groups = some b) (hs : ∀ x ∈ st.srtcs, x.r < st.srtcs.length) :
     Ob.result o (.fail .clientClosed) ∈ (step cfg st env (.srtc o g mt)).2 := by
@@ -246,6 +255,329 @@ example :
   simp only [NoFuel, and_true]
   refine ⟨by decide +kernel, by decide +kernel, by decide +kernel, by decide +kernel, by decide +kernel, by decide +kernel⟩
 
+/-! ## "Closing the client fails everything pending": no request survives `close()` -/
+
+/-- **Once the client is closed no request handed to a broker client is still pending** - in every state reachable
+    from the initial state (any API calls, completions, connection events, clock; no step exhausting the fuel) in which
+    the client is closed: the state right after `close()` and every later one.  `close()` fails every request in
+    flight inside the close step (the broker clients it closes errback them), also those on broker clients that an
+    earlier metadata refresh had popped.  Proof (`AfkakProofs/Client/B5_ReqClosed.lean`): `RcInv` - a request pending on a
+    broker client that has been told to close has its failure on the action stack, and only broker clients that left
+    `self.clients` are told to close (so `_get_brokerclient` never hands a new request to a closed one) - through every
+    action, the clock and every event; with `C20_close_closes_every_broker_client` (every instance is closed once
+    closing) and an empty stack between steps nothing can be pending. -/
+theorem C20_no_request_pending_after_close (cfg : Cfg) (evs : List (Env × Ev)) (hnf : NoFuel cfg {} evs) :
+    let st := evs.foldl (fun s e => (step cfg s e.1 e.2).1) ({} : St)
+    st.closing = true → ∀ q ∈ st.reqs, q.pending = false :=
+  closed_no_pending cfg evs hnf
+
+/-- ... so whatever a broker client still reports for a request after `close()` is discarded: the step of a completion
+    `fire k r` in a reachable closed state emits `late k` (or refuses an unknown id) and nothing else - no result, no
+    retry, no request, no cache update. -/
+theorem C20_completions_after_close_discarded (cfg : Cfg) (evs : List (Env × Ev)) (hnf : NoFuel cfg {} evs) (env : Env) (k : Nat) (r : Res) :
+    let st := evs.foldl (fun s e => (step cfg s e.1 e.2).1) ({} : St)
+    st.closing = true →
+    (step cfg st env (.fire k r)).2 = [.late k] ∨ (step cfg st env (.fire k r)).2 = [.badOp "fireReq"] := by
+  intro st hc
+  have hnp := closed_no_pending cfg evs hnf hc
+  cases hq : reqGet { st with env := env } k with
+  | none => right; simp [step, fuel, runActs, exec, hq]
+  | some q =>
+    left
+    have hm : q ∈ st.reqs := (reqGet_mem hq).1
+    have := hnp q hm
+    simp [step, fuel, runActs, exec, hq, this]
+
+/-! Non-vacuity: bootstrap, metadata, a send in flight on broker client 0, then `close()`: the request is pending before
+    the close step and resolved after it; its late reply is discarded. -/
+example :
+    let cfg : Cfg := { timeout := 10, disconnectOnTimeout := false, bootHosts := [("boot", 9092)] }
+    let evs : List (Env × Ev) :=
+      [({ shuffles := [[], [0]] }, .load 0 []), ({}, .bootOk 0),
+       ({}, .bootReply 0 (.metadata [⟨1, "h1", 9092⟩] [⟨"t", 0, [⟨0, 0, 1⟩]⟩])),
+       ({}, .send 1 [("t", 0)] none true true)]
+    let st := evs.foldl (fun s e => (step cfg s e.1 e.2).1) ({} : St)
+    let st' := (step cfg st {} (.close 2)).1
+    NoFuel cfg {} (evs ++ [(({} : Env), Ev.close 2)]) ∧ st.reqs.map (·.pending) = [true] ∧ st'.closing = true ∧
+    st'.reqs.map (·.pending) = [false] ∧ (step cfg st' {} (.fire 0 (.ok (.items [(("t", 0), 0, 7)])))).2 = [.late 0] := by
+  refine ⟨?_, by decide +kernel, by decide +kernel, by decide +kernel, by decide +kernel⟩
+  simp only [NoFuel, List.cons_append, List.nil_append, and_true]
+  refine ⟨by decide +kernel, by decide +kernel, by decide +kernel, by decide +kernel, by decide +kernel⟩
+
+/-- **`close()` clears the metadata and it STAYS cleared** (the monitor's three `dump` rules, on the model): in every
+    state reachable from the initial state (any API calls, completions, connection events, clock, late replies, new
+    operations, another close; no step exhausting the fuel) in which the client is closed - the state right after
+    `close()` and every later one - the routing metadata is invalid (`Afkak.Monitor.C08.allInvalid`: no topic → broker
+    entry, no topic partitions, no topic errors, no group coordinator), `self.clients` is empty and the partition
+    metadata is empty.  (`C20_metadata_cleared` is the statement about `reset_all_metadata()` itself.)  Proof
+    (`AfkakProofs/Client/B5_Cleared.lean`): while closing `_get_brokerclient` refuses, so no request is issued; no
+    request is pending after the close step (`C20_no_request_pending_after_close`) and no bootstrap request is in flight
+    (`C20_close_leaves_no_bootstrap_pending_partial`), so no successful reply can be merged; what else touches the cache
+    (`reset_consumer_group_metadata`, `_handle_responses`' resets, `reset_topic_metadata`, `reset_all_metadata`) keeps
+    it cleared (`KInv` through every action, the clock and every event). -/
+theorem C20_metadata_stays_cleared (cfg : Cfg) (evs : List (Env × Ev)) (hnf : NoFuel cfg {} evs) :
+    let st := evs.foldl (fun s e => (step cfg s e.1 e.2).1) ({} : St)
+    st.closing = true →
+    Afkak.Monitor.C08.allInvalid st.cache = true ∧ st.cache.clients = [] ∧ st.cache.partMeta = [] := by
+  intro st hc
+  obtain ⟨hC, hcl⟩ := closed_cleared cfg evs hnf hc
+  refine ⟨?_, hcl, hC.partMeta⟩
+  show Afkak.Monitor.C08.allInvalid (evs.foldl (fun s e => (step cfg s e.1 e.2).1) ({} : St)).cache = true
+  simp [Afkak.Monitor.C08.allInvalid, hC.t2b, hC.topicParts, hC.topicErrs, hC.groups]
+
+/-! Non-vacuity: bootstrap + metadata (two brokers, topic `t`), a send in flight, `close()`, then a LATE successful
+    metadata reply for the failed request and a new load: the cache is cleared after the close and stays cleared. -/
+example :
+    let cfg : Cfg := { timeout := 10, disconnectOnTimeout := false, bootHosts := [("boot", 9092)] }
+    let evs : List (Env × Ev) :=
+      [({ shuffles := [[], [0]] }, .load 0 []), ({}, .bootOk 0),
+       ({}, .bootReply 0 (.metadata [⟨1, "h1", 9092⟩] [⟨"t", 0, [⟨0, 0, 1⟩]⟩])),
+       ({}, .send 1 [("t", 0)] none true true)]
+    let st := evs.foldl (fun s e => (step cfg s e.1 e.2).1) ({} : St)
+    let post : List (Env × Ev) := [({}, .close 2), ({}, .fire 0 (.ok (.items [(("t", 0), 0, 7)]))), ({}, .load 3 ["t"])]
+    let st' := (evs ++ post).foldl (fun s e => (step cfg s e.1 e.2).1) ({} : St)
+    NoFuel cfg {} (evs ++ post) ∧ st.cache.t2b.length = 1 ∧ st.cache.clients.length = 1 ∧ st'.closing = true ∧
+    st'.cache.t2b = [] ∧ st'.cache.clients = [] := by
+  refine ⟨?_, by decide +kernel, by decide +kernel, by decide +kernel, by decide +kernel, by decide +kernel⟩
+  simp only [NoFuel, List.cons_append, List.nil_append, and_true]
+  refine ⟨by decide +kernel, by decide +kernel, by decide +kernel, by decide +kernel, by decide +kernel, by decide +kernel, by decide +kernel⟩
+
+/-- **A metadata load started after `close()` fails at once, at the level of a whole step**: in EVERY state reachable
+    from the initial state in which the client is closed, `load_metadata_for_topics(*topics)` emits exactly one
+    observation - its own Deferred failing with `KafkaUnavailableError` - inside the call: no shuffle, no connection, no
+    request, no timer; and the (cleared) metadata is left as it is.  (The monitor rule "an operation started after
+    close did not fail at once", for loads; `C20_new_ops_fail` is the action-level statement.) -/
+theorem C20_load_after_close_fails_at_once (cfg : Cfg) (evs : List (Env × Ev)) (env : Env) (o : Nat) (topics : List String) :
+    let st := evs.foldl (fun s e => (step cfg s e.1 e.2).1) ({} : St)
+    st.closing = true →
+    (step cfg st env (.load o topics)).2 = [.result o (.fail .unavailable)] ∧
+    (step cfg st env (.load o topics)).1.cache = st.cache := by
+  intro st hc
+  have hB : BootInv st := run_bootInv cfg evs {} BootInv.init
+  have hu : ∀ x ∈ st.unawares, x.u < st.unawares.length := by
+    intro x hx
+    obtain ⟨i, hi, hix⟩ := List.getElem_of_mem hx
+    have := hB.ids i x (by rw [List.getElem?_eq_getElem hi, hix])
+    omega
+  have hfil : st.unawares.filter (fun x => x.u == st.unawares.length) = [] := by
+    rw [List.filter_eq_nil_iff]; intro x hx; have := hu x hx; simp; omega
+  simp [step, fuel, runActs, exec, hc, unawareGet, List.filter_append, hfil, setUnaware, deliverLoad, Kind.isCancel]
+
+/-! Non-vacuity: the run of the example above followed by `close()`; a load afterwards fails at once. -/
+example :
+    let cfg : Cfg := { timeout := 10, disconnectOnTimeout := false, bootHosts := [("boot", 9092)] }
+    let evs : List (Env × Ev) :=
+      [({ shuffles := [[], [0]] }, .load 0 []), ({}, .bootOk 0),
+       ({}, .bootReply 0 (.metadata [⟨1, "h1", 9092⟩] [⟨"t", 0, [⟨0, 0, 1⟩]⟩])),
+       ({}, .send 1 [("t", 0)] none true true), ({}, .close 2)]
+    let st := evs.foldl (fun s e => (step cfg s e.1 e.2).1) ({} : St)
+    st.closing = true ∧ (step cfg st {} (.load 3 ["t"])).2 = [.result 3 (.fail .unavailable)] := by
+  refine ⟨by decide +kernel, by decide +kernel⟩
+
+/-- **A coordinator lookup started after `close()` fails at once** (step level, reachable closed states; audit round 2,
+    C20-1): in every state reachable from the initial state in which the client is closed,
+    `load_coordinator_for_group(g)` emits exactly one observation - its Deferred failing with CoordinatorNotAvailable -
+    inside the call, PROVIDED no coordinator lookup for `g` is in progress (`hg`, the excluded situation: a lookup in
+    progress would be joined and the new waiter answered when it ends; that none is in progress in a closed state is
+    not proved - the lookups pending at close are ended in the close step, monitored on every trace). -/
+theorem C20_cload_after_close_fails_at_once_partial (cfg : Cfg) (evs : List (Env × Ev)) (env : Env) (o : Nat) (g : String) :
+    let st := evs.foldl (fun s e => (step cfg s e.1 e.2).1) ({} : St)
+    st.closing = true → st.cfetches.any (fun f => f.g == g) = false →
+    (step cfg st env (.cload o g)).2 = [.result o (.fail Kind.coordNA)] := by
+  intro st hc hg
+  have hB : BootInv st := run_bootInv cfg evs {} BootInv.init
+  have hu : ∀ x ∈ st.unawares, x.u < st.unawares.length := by
+    intro x hx
+    obtain ⟨i, hi, hix⟩ := List.getElem_of_mem hx
+    have := hB.ids i x (by rw [List.getElem?_eq_getElem hi, hix])
+    omega
+  have hfil : st.unawares.filter (fun x => x.u == st.unawares.length) = [] := by
+    rw [List.filter_eq_nil_iff]; intro x hx; have := hu x hx; simp; omega
+  have hgf : st.cfetches.filter (fun f => f.g == g) = [] := by
+    rw [List.filter_eq_nil_iff]; intro f hf
+    rw [List.any_eq_false] at hg
+    exact hg f hf
+  simp [step, cloadJoin, hg, fuel, runActs, exec, hc, unawareGet, List.filter_append, hfil, hgf, setUnaware]
+
+/-- **`_send_request_to_coordinator` started after `close()` fails at once** (step level, reachable closed states): the
+    cached coordinator is gone (`C20_metadata_stays_cleared`), the lookup is refused because the client is closed, and
+    the operation's Deferred fails with CoordinatorNotAvailable inside the call - nothing is sent.  Same proviso as for
+    `C20_cload_after_close_fails_at_once_partial` (no lookup for `g` in progress); the fresh ids of the
+    `_send_request_to_coordinator` instances that `C20_srtc_after_close_fails` assumes are proved (`reachable_tids`).
+    This is the reachable-state counterpart of `C20_srtc_after_close_fails`, whose hypotheses hold only inside the close
+    step. -/
+theorem C20_srtc_after_close_fails_at_once_partial (cfg : Cfg) (evs : List (Env × Ev)) (hnf : NoFuel cfg {} evs) (env : Env)
+    (o : Nat) (g : String) (mt : Option Rat) :
+    let st := evs.foldl (fun s e => (step cfg s e.1 e.2).1) ({} : St)
+    st.closing = true → st.cfetches.any (fun f => f.g == g) = false →
+    (step cfg st env (.srtc o g mt)).2 = [.result o (.fail Kind.coordNA)] := by
+  intro st hc hg
+  have hs : ∀ x ∈ st.srtcs, x.r < st.srtcs.length := (reachable_tids cfg evs {} TIds.init).srtc_lt
+  have hgr : st.cache.groups = [] := (closed_cleared cfg evs hnf hc).1.groups
+  have hB : BootInv st := run_bootInv cfg evs {} BootInv.init
+  have hu : ∀ x ∈ st.unawares, x.u < st.unawares.length := by
+    intro x hx
+    obtain ⟨i, hi, hix⟩ := List.getElem_of_mem hx
+    have := hB.ids i x (by rw [List.getElem?_eq_getElem hi, hix])
+    omega
+  have hfil : st.unawares.filter (fun x => x.u == st.unawares.length) = [] := by
+    rw [List.filter_eq_nil_iff]; intro x hx; have := hu x hx; simp; omega
+  have hsf : st.srtcs.filter (fun x => x.r == st.srtcs.length) = [] := by
+    rw [List.filter_eq_nil_iff]; intro x hx; have := hs x hx; simp; omega
+  have hgf : st.cfetches.filter (fun f => f.g == g) = [] := by
+    rw [List.filter_eq_nil_iff]; intro f hf
+    rw [List.any_eq_false] at hg
+    exact hg f hf
+  simp [step, cloadJoin, hg, hgr, get?, fuel, runActs, exec, hc, unawareGet, srtcGet, List.filter_append, hfil, hgf, hsf, setUnaware, setSrtc]
+
+/-! Non-vacuity of both: the closed client of the examples above - no lookup in progress -
+    refuses `load_coordinator_for_group("g")` and a heartbeat to group "g". -/
+example :
+    let cfg : Cfg := { timeout := 10, disconnectOnTimeout := false, bootHosts := [("boot", 9092)] }
+    let evs : List (Env × Ev) :=
+      [({ shuffles := [[], [0]] }, .load 0 []), ({}, .bootOk 0),
+       ({}, .bootReply 0 (.metadata [⟨1, "h1", 9092⟩] [⟨"t", 0, [⟨0, 0, 1⟩]⟩])),
+       ({}, .send 1 [("t", 0)] none true true), ({}, .close 2)]
+    let st := evs.foldl (fun s e => (step cfg s e.1 e.2).1) ({} : St)
+    st.closing = true ∧ st.cfetches.any (fun f => f.g == "g") = false ∧
+    (step cfg st {} (.cload 3 "g")).2 = [.result 3 (.fail Kind.coordNA)] ∧
+    (step cfg st {} (.srtc 3 "g" none)).2 = [.result 3 (.fail Kind.coordNA)] := by
+  refine ⟨by decide +kernel, by decide +kernel, by decide +kernel, by decide +kernel⟩
+
+/-- **A send started after `close()` fails at once** (step level, every reachable closed state, any payload list):
+    `send_produce_request` / `send_fetch_request` / … (`group = none`) emits exactly one observation - its own Deferred
+    failing - inside the call: `ValueError` for an empty or repeated payload list, otherwise `KafkaUnavailableError`
+    (the routing metadata is gone - `C20_metadata_stays_cleared` - and the reload is refused because the client is
+    closed).  Nothing is connected, created or sent.  With a consumer group (`send_offset_commit_request` …) the same,
+    failing with CoordinatorNotAvailable, provided no coordinator lookup for the group is in progress (as for
+    `C20_cload_after_close_fails_at_once_partial`). -/
+theorem C20_send_after_close_fails_at_once (cfg : Cfg) (evs : List (Env × Ev)) (hnf : NoFuel cfg {} evs) (env : Env)
+    (o : Nat) (keys : List TP) (group : Option String) (foe expect : Bool) :
+    let st := evs.foldl (fun s e => (step cfg s e.1 e.2).1) ({} : St)
+    st.closing = true → (∀ g, group = some g → st.cfetches.any (fun f => f.g == g) = false) →
+    ∃ kd, (step cfg st env (.send o keys group foe expect)).2 = [.result o (.fail kd)] := by
+  intro st hc hgrp
+  obtain ⟨hC, _⟩ := closed_cleared cfg evs hnf hc
+  have ht : st.cache.t2b = [] := hC.t2b
+  have hgr : st.cache.groups = [] := hC.groups
+  have hB : BootInv st := run_bootInv cfg evs {} BootInv.init
+  have hI : Ids st := reachable_ids cfg evs {} Ids.init
+  have hu : ∀ x ∈ st.unawares, x.u < st.unawares.length := by
+    intro x hx
+    obtain ⟨i, hi, hix⟩ := List.getElem_of_mem hx
+    have := hB.ids i x (by rw [List.getElem?_eq_getElem hi, hix])
+    omega
+  have hs : ∀ x ∈ st.sends, x.s < st.sends.length := by
+    intro x hx
+    have hm : x.s ∈ sids st := List.mem_map.mpr ⟨x, hx, rfl⟩
+    rw [hI.sends] at hm
+    simpa using hm
+  have hfil : st.unawares.filter (fun x => x.u == st.unawares.length) = [] := by
+    rw [List.filter_eq_nil_iff]; intro x hx; have := hu x hx; simp; omega
+  have hsf : st.sends.filter (fun x => x.s == st.sends.length) = [] := by
+    rw [List.filter_eq_nil_iff]; intro x hx; have := hs x hx; simp; omega
+  simp only [step]
+  split
+  · exact ⟨.other "ValueError", by simp [fuel, runActs, exec]⟩
+  · split
+    · exact ⟨.other "ValueError", by simp [fuel, runActs, exec]⟩
+    · cases keys with
+      | nil => simp at *
+      | cons key rest =>
+        cases group with
+        | none =>
+          refine ⟨.unavailable, ?_⟩
+          simp [fuel, runActs, exec, hc, ht, get?, sendGet, unawareGet, List.filter_append, hfil, hsf, setUnaware, setSend, deliverLoad, Kind.isCancel]
+        | some g =>
+          have hg := hgrp g rfl
+          have hgf : st.cfetches.filter (fun f => f.g == g) = [] := by
+            rw [List.filter_eq_nil_iff]; intro f hf
+            rw [List.any_eq_false] at hg
+            exact hg f hf
+          refine ⟨Kind.coordNA, ?_⟩
+          simp [fuel, runActs, exec, hc, hgr, hg, get?, cloadJoin, sendGet, unawareGet, List.filter_append, hfil, hsf, hgf, setUnaware, setSend]
+
+/-! Non-vacuity: the closed client of the examples above refuses a produce and a commit. -/
+example :
+    let cfg : Cfg := { timeout := 10, disconnectOnTimeout := false, bootHosts := [("boot", 9092)] }
+    let evs : List (Env × Ev) :=
+      [({ shuffles := [[], [0]] }, .load 0 []), ({}, .bootOk 0),
+       ({}, .bootReply 0 (.metadata [⟨1, "h1", 9092⟩] [⟨"t", 0, [⟨0, 0, 1⟩]⟩])),
+       ({}, .send 1 [("t", 0)] none true true), ({}, .close 2)]
+    let st := evs.foldl (fun s e => (step cfg s e.1 e.2).1) ({} : St)
+    st.closing = true ∧ st.cfetches = [] ∧
+    (step cfg st {} (.send 3 [("t", 0)] none true true)).2 = [.result 3 (.fail .unavailable)] ∧
+    (step cfg st {} (.send 3 [("t", 0)] (some "g") true true)).2 = [.result 3 (.fail Kind.coordNA)] := by
+  refine ⟨by decide +kernel, by decide +kernel, by decide +kernel, by decide +kernel⟩
+
+/-- **`_load_topic_partitions` started after `close()` fails at once** (step level, reachable closed states): exactly one
+    observation, its Deferred failing with `ClientError`, inside the call.  (The instances are numbered by position in
+    every reachable state: `reachable_tids`, AfkakProofs/Client/B5_Ids.lean.) -/
+theorem C20_ltp_after_close_fails_at_once (cfg : Cfg) (evs : List (Env × Ev)) (env : Env) (o : Nat) (topics : List String) :
+    let st := evs.foldl (fun s e => (step cfg s e.1 e.2).1) ({} : St)
+    st.closing = true →
+    (step cfg st env (.ltp o topics)).2 = [.result o (.fail .clientClosed)] := by
+  intro st hc
+  have hl : ∀ x ∈ st.ltps, x.l < st.ltps.length := (reachable_tids cfg evs {} TIds.init).ltp_lt
+  have hB : BootInv st := run_bootInv cfg evs {} BootInv.init
+  have hu : ∀ x ∈ st.unawares, x.u < st.unawares.length := by
+    intro x hx
+    obtain ⟨i, hi, hix⟩ := List.getElem_of_mem hx
+    have := hB.ids i x (by rw [List.getElem?_eq_getElem hi, hix])
+    omega
+  have hfil : st.unawares.filter (fun x => x.u == st.unawares.length) = [] := by
+    rw [List.filter_eq_nil_iff]; intro x hx; have := hu x hx; simp; omega
+  have hfl : st.ltps.filter (fun x => x.l == st.ltps.length) = [] := by
+    rw [List.filter_eq_nil_iff]; intro x hx; have := hl x hx; simp; omega
+  have hmap : ∀ (g : Ltp → Ltp), st.ltps.map (fun y => if y.l == st.ltps.length then g y else y) = st.ltps := by
+    intro g
+    conv => rhs; rw [← List.map_id st.ltps]
+    apply List.map_congr_left
+    intro y hy
+    have := hl y hy
+    have : (y.l == st.ltps.length) = false := by simp; omega
+    simp [this]
+  simp only [step, fuel, runActs, exec, List.filter_append, hfl, List.nil_append, List.filter_cons, beq_self_eq_true, if_true,
+    List.head?_cons, List.map_append, hmap, List.map_cons, List.map_nil, hc]
+  simp [runActs, exec, unawareGet, hfil, hfl, hmap, List.filter_append, setUnaware]
+
+/-! Non-vacuity: the closed client of the examples above. -/
+example :
+    let cfg : Cfg := { timeout := 10, disconnectOnTimeout := false, bootHosts := [("boot", 9092)] }
+    let evs : List (Env × Ev) :=
+      [({ shuffles := [[], [0]] }, .load 0 []), ({}, .bootOk 0),
+       ({}, .bootReply 0 (.metadata [⟨1, "h1", 9092⟩] [⟨"t", 0, [⟨0, 0, 1⟩]⟩])),
+       ({}, .send 1 [("t", 0)] none true true), ({}, .close 2)]
+    let st := evs.foldl (fun s e => (step cfg s e.1 e.2).1) ({} : St)
+    st.closing = true ∧ (step cfg st {} (.ltp 3 ["t"])).2 = [.result 3 (.fail .clientClosed)] := by
+  refine ⟨by decide +kernel, by decide +kernel⟩
+
+/-- `C20_metadata_stays_cleared` end to end: in every run of the COMPOSED model without a fuel report, once the client
+    component is closed its metadata is and stays cleared - whatever the broker clients below deliver afterwards. -/
+theorem C20_composed_metadata_stays_cleared (cfg : Afkak.ClientCompose.Cfg) (evs : List Afkak.ClientCompose.Ev)
+    (hnf : Afkak.ClientCompose.NoFuelRun cfg {} evs) :
+    let s := Afkak.ClientCompose.run cfg {} evs
+    s.cl.closing = true →
+    Afkak.Monitor.C08.allInvalid s.cl.cache = true ∧ s.cl.cache.clients = [] ∧ s.cl.cache.partMeta = [] := by
+  intro s hc
+  obtain ⟨l, hl, hnfl⟩ := Afkak.ClientCompose.run_proj cfg evs {} hnf
+  have hl' : s.cl = l.foldl (fun s e => (step cfg.cl s e.1 e.2).1) ({} : St) := hl
+  rw [hl'] at hc ⊢
+  exact C20_metadata_stays_cleared cfg.cl l hnfl hc
+
+/-- The same end to end: in every run of the COMPOSED model (client × broker clients, network-level events) that shows
+    no fuel report, once the client component is closed none of its requests is pending (the client component of a
+    composed run is a client run: `run_proj`). -/
+theorem C20_composed_no_request_pending_after_close (cfg : Afkak.ClientCompose.Cfg) (evs : List Afkak.ClientCompose.Ev)
+    (hnf : Afkak.ClientCompose.NoFuelRun cfg {} evs) :
+    let s := Afkak.ClientCompose.run cfg {} evs
+    s.cl.closing = true → ∀ q ∈ s.cl.reqs, q.pending = false := by
+  intro s hc q hq
+  obtain ⟨l, hl, hnfl⟩ := Afkak.ClientCompose.run_proj cfg evs {} hnf
+  have hl' : s.cl = l.foldl (fun s e => (step cfg.cl s e.1 e.2).1) ({} : St) := hl
+  rw [hl'] at hc hq
+  exact closed_no_pending cfg.cl l hnfl hc q hq
+
 /-! ## C20 end to end: the client model composed with one broker-client model per broker (`Afkak/ClientCompose.lean`) -/
 
 /-- Once the client component of the COMPOSED model (client model × one broker-client model per broker client) is
@@ -395,6 +727,16 @@ C20_close_closes_every_broker_client
 C20_composed_closed_quiet
 C20_composed_no_connect_no_write_after_close
 C20_composed_close_closes_every_broker_client_partial
+C20_no_request_pending_after_close
+C20_completions_after_close_discarded
+C20_composed_no_request_pending_after_close
+C20_load_after_close_fails_at_once
+C20_metadata_stays_cleared
+C20_cload_after_close_fails_at_once_partial
+C20_srtc_after_close_fails_at_once_partial
+C20_send_after_close_fails_at_once
+C20_composed_metadata_stays_cleared
+C20_ltp_after_close_fails_at_once
 -/
 /- OPEN_STATEMENTS
 C20_model_traces_satisfy_monitor
